@@ -11,7 +11,7 @@ from engine.core import count_lines, log, VERIF
 P = "Pixman.Props.C01Float."
 REQUIRED_FLOAT = [P + n for n in [
     # get_factor table = Render definition (all alphas in [0,1], alpha 0 / 1 edges included); results in [0,1]
-    "getFactor_unit", "pdFactors_render", "pdCombine_render", "pdCombine_unit", "pd_no_clamp_premultiplied_partial",
+    "getFactor_unit", "pdFactors_render", "pdCombine_render", "pdCombine_unit", "mul_minFactor_le", "mul_maxFactor_le", "pd_no_clamp_premultiplied", "add_clamp_active",
     # masks
     "combineInner_unified_spec", "combineInner_ca_spec", "combineInner_nomask_spec", "combineInner_opaque_mask",
     # consistency with the operator simplifications of C09
@@ -21,14 +21,20 @@ REQUIRED_FLOAT = [P + n for n in [
     # separable blend modes = PDF formula (alpha > 0), alpha = 0 edges, whole channel, ranges
     "blendMultiply_pdf", "blendScreen_pdf", "blendOverlay_pdf", "blendDarken_pdf", "blendLighten_pdf", "blendColorDodge_pdf",
     "blendColorBurn_pdf", "blendHardLight_pdf", "blendSoftLight_pdf", "blendDifference_pdf", "blendExclusion_pdf",
-    "blend_zero_edge", "sepCombineC_pdf", "sepCombineA_unit", "separable_unit", "sepCombineC_unit_partial",
+    "blend_zero_edge", "sepCombineC_pdf", "sepCombineA_unit", "separable_unit", "blendSoftLight_unit", "sepCombineC_unit",
     # HSL helpers
     "getLum_spec", "channelMin_spec", "channelMax_spec", "getSat_spec", "getLum_shift", "clipColor_keeps_lum",
     "getLum_setLum_noclip", "getLum_setLum", "setSat_grey", "setSat_spec", "getSat_setSat", "clipColor_spec", "setLum_spec",
     # homogeneity (premultiplied evaluation = alpha_s*alpha_b x evaluation on un-premultiplied colours); HSL modes = PDF functions
     "channelMin_scale", "channelMax_scale", "getLum_scale", "getSat_scale", "clipColor_scale", "setLum_scale", "setSat_scale",
     "blendHslHue_normalised", "blendHslSaturation_normalised", "blendHslColor_normalised", "blendHslLuminosity_normalised",
-    "setLum_spec_unit", "toColor_scale", "lum_unit", "hslBlend_pdf_partial",
+    "setLum_spec_unit", "toColor_scale", "lum_unit", "hslBlend_pdf_pos", "setLum_zero", "hslBlend_zero_edge", "hsl_pixel_pdf", "combineHslU_mask", "hsl_pixel_masked_pdf",
+    "hsl_alpha_unit",
+    # the narrow/wide decision and the wide flag of the formats = regenerated source expressions
+    "runsNarrow_regenerated", "generalIsNarrow_false_iff", "runsWide_iff", "needsDivision_table", "formats_wide_flag",
+    # widening then narrowing in the same format = identity (reuses the float theorems of C10); sRGB table
+    "unormToQ_eq", "unormToQ_field", "widen_narrow_channel", "packed_widths", "store_channel", "widen_narrow_id_packed",
+    "widen_narrow_id_full", "toLinearQ_eq", "srgb_table_monotone", "widen_narrow_id_srgb", "f32ToRat_eq",
 ]]
 
 CONFIGS = [("default", ""), ("general-only", "fast mmx sse2 ssse3")]
